@@ -34,7 +34,13 @@ def run(chk, tier):
     import lists
     nrf = lists.refresh_first(chk, P, only=("hwloc_topology_diff_build",))
     chk.floor("R-REFRESHFIRST", "distances-list reads in hwloc_topology_diff_build", nrf, 2)
-    chk.decided += ['diff_build refreshes the distances of both topologies before comparing them',
+    chk.rule("R-EMPTYOK", "a local filled through an out-parameter is not read when the callee succeeded without storing anything: readers with an EMPTY non-negative result (all exits with that value leave the "
+             "out-parameter untouched while another value stores it) are discovered; callers passing the address of an uninitialised local are explored with the result forced to each empty value")
+    import emptyok
+    neo, eofound = emptyok.run(chk, P, ["topology-xml-nolibxml.c", "topology-xml.c", "topology-xml-libxml.c", "diff.c", "traversal.c"])
+    chk.floor("R-EMPTYOK", "call sites of readers with an empty successful outcome", neo, 1)
+    chk.decided += ['the built-in diff importer does not read the tag of a root element that was not found (a buffer starting with a closing tag)',
+                    'diff_build refreshes the distances of both topologies before comparing them',
                     'the diff XML buffer export re-runs with the size of the reallocated buffer',
                     'diff compares type-specific attributes only under the matching object type of both objects',
                     "a diff that build returns can be applied and exported: no NULL value strings are produced (all producer sites, all paths)",
